@@ -230,7 +230,7 @@ func c08GenCases(rng *rand.Rand, tier string) []Case {
 	out = append(out, Case{ID: "wrap-redelivery", Tags: []string{"boundary"}, Nontrivial: true, Ops: []string{
 		"cfg 2 " + hexs("n1") + " -",
 		"q 1 7 0 " + hexs("q") + " F R", "q " + M + " 8 0 " + hexs("q") + " F R", "q 1 7 0 " + hexs("q") + " F R"}})
-	nr := 1500
+	nr := 1000
 	if tier == "thorough" {
 		nr = 100000
 	}
